@@ -565,6 +565,40 @@ func runRBCAttack(r *prng, id int) *jScenario {
 			}
 		}
 		steps = r.intn(4)
+	} else if r.chance(1, 3) {
+		// round revisited: the sender completes a broadcast of round rho (every Byzantine member vouches, the honest
+		// acknowledgements are delivered), moves on to another round (a broadcast, or only somebody's acknowledgement
+		// about it), and then comes back to round rho with a different payload that every Byzantine member vouches for
+		// again. Whatever a party remembers about rho must survive the sender's later rounds.
+		other := (round + 1 + uint8(r.intn(3))) % 8
+		if r.chance(1, 3) && round > 0 {
+			other = round - 1
+		}
+		phase := func(p []byte, rd uint8, ackOnly bool) {
+			for _, h := range honest {
+				if ackOnly {
+					w.deliver(flight{to: h, from: r.pick16(byz), data: wireAck(sha(p), sender, rd), kind: "back"})
+					continue
+				}
+				w.deliver(flight{to: h, from: sender, data: wirePayload(p), kind: "bbcast"})
+				for _, b := range byz[1:] {
+					w.deliver(flight{to: h, from: b, data: wireAck(sha(p), sender, rd), kind: "back"})
+				}
+			}
+			for guard := 0; len(w.pool) > 0 && guard < 200; guard++ {
+				f := w.pool[0]
+				w.pool = w.pool[1:]
+				w.deliver(f)
+			}
+		}
+		first, second := mkPayload(r, round, true), mkPayload(r, round, true)
+		phase(first, round, false)
+		phase(mkPayload(r, other, true), other, r.chance(1, 3))
+		phase(second, round, false)
+		for _, h := range honest {
+			pay[h] = second
+		}
+		steps = r.intn(4)
 	}
 	for i := 0; i < steps; i++ {
 		if len(w.pool) > 0 && r.chance(2, 5) {
